@@ -430,7 +430,7 @@ class World:
 
     def __init__(self, machine=None, *, reorg_limit=200, activation=3, prefetch=100,
                  chunk_size=None, immediate_daemon=True, max_send=None, cache_mb=1200,
-                 daemon=None):
+                 daemon=None, extra_env=None):
         patch_modules()
         self.machine = machine or Machine()
         self.machine.activate()
@@ -454,11 +454,12 @@ class World:
             'SERVICES': '', 'DB_ENGINE': 'leveldb', 'COIN': 'BitcoinSV', 'NET': 'regtest',
         }
         for k in ('MAX_SEND', 'REPORT_SERVICES', 'BANNER_FILE', 'TOR_BANNER_FILE', 'DROP_CLIENT',
-                  'COST_SOFT_LIMIT', 'COST_HARD_LIMIT', 'REQUEST_TIMEOUT', 'MAX_RECV'):
+                  'COST_SOFT_LIMIT', 'COST_HARD_LIMIT', 'REQUEST_TIMEOUT', 'MAX_RECV', 'LOG_SESSIONS'):
             os.environ.pop(k, None)
         if max_send is not None:
             env_vars['MAX_SEND'] = str(max_send)
         os.environ.update(env_vars)
+        os.environ.update(extra_env or {})
         self.coin = make_coin(activation, prefetch)
         self.env = Env(self.coin)
         if daemon is None:
